@@ -13,6 +13,9 @@ import vlib
 ok, out = vlib.oracle_build()
 print("oracle:", "ok" if ok else out[-3000:])
 if not ok: sys.exit(1)
+t = vlib.source_tie()
+print("source tie:", {k: v["ok"] for k, v in t["files"].items()}, "notes beyond baseline:", t["new_notes"])
+if not all(v["ok"] for v in t["files"].values()): sys.exit(1)
 for cfg in ("dev", "rel", "dev-nb", "rel-nb"):
     ok, out, exe = vlib.harness_build(cfg)
     print("harness", cfg, "ok" if ok else out[-3000:])
